@@ -2168,7 +2168,7 @@ def expected_components(fn):
     return None
 
 
-def map_problems(fn, by_decl):
+def map_problems(fn, by_decl, as_name=None):
     """-> (violations, incompletes, n_component_calls)"""
     viol, inc = [], []
     if len(fn.params) != 1:
@@ -2305,53 +2305,201 @@ def map_problems(fn, by_decl):
     if exp is None:
         return viol, ["%s: unknown composition class" % fn.full], 0
     comps, argrule, ordered = exp
+    role = as_name or fn.name          # the filter operation this function performs (a private helper plays the role of its caller)
     seen = []
-    alias = {}       # decl id of a reference / pointer alias local -> ("recv", component label) | ("arg", sub-vector label)
-    for s in stmts:
-        if s.get("k") == "Decl":
-            # static_assert (no variables) / named aliases of a component or of a sub-vector
-            for v in s.get("vars", []):
-                ini = v.get("init")
-                ty = (fn.type(v["t"]) or "").strip()
-                if ini is not None and ini.get("k") == "Un" and ini.get("op") == "&" and ty.rstrip("const ").endswith("*"):
-                    ini, is_alias = ini["e"], True
-                else:
-                    is_alias = bool(v.get("ref"))
-                rl = recv_label(ini, by_decl, alias) if ini is not None and is_alias else None
-                al = arg_label(ini, pd, alias) if ini is not None and is_alias else None
-                if rl is not None:
-                    alias[v["d"]] = ("recv", rl)
-                elif al is not None:
-                    alias[v["d"]] = ("arg", al)
-                else:
-                    inc.append("%s: statement `%s` is not a component call (nor a reference alias of a component / sub-vector)" % (fn.full, render(s)[:80]))
-            continue
-        if s.get("k") == "Call" and s.get("callee") == "FEAT::assertion":
-            continue
-        if s.get("k") == "MCall" and s.get("n", "").startswith("filter_"):
-            rl = recv_label(s.get("obj") or {}, by_decl, alias)
-            if rl is None:
-                inc.append("%s: component receiver %s not understood" % (fn.full, render(s.get("obj") or {})))
+    alias = {}       # decl id of a reference / pointer alias local (or of a parameter of an inlined helper) -> ("recv", component label) | ("arg", sub-vector label)
+
+    def const_cond(c):
+        """value of an `if constexpr` condition over template constants: True / False / None"""
+        def val(e):
+            while e is not None and e.get("k") == "Cast":
+                e = e.get("e")
+            if e is None:
+                return None
+            if e.get("k") in ("Int", "Bool"):
+                return int(e["v"]) if e["k"] == "Int" else int(bool(e["v"]))
+            if e.get("k") in ("Ref", "Member") and "v" in e:
+                return int(e["v"])
+            return None
+        c0 = c
+        while c0 is not None and c0.get("k") == "Cast":
+            c0 = c0.get("e")
+        if c0 is not None and c0.get("k") == "Bin" and c0.get("op") in ("==", "!=", "<", ">", "<=", ">="):
+            x, y = val(c0["lhs"]), val(c0["rhs"])
+            if x is not None and y is not None:
+                return {"==": x == y, "!=": x != y, "<": x < y, ">": x > y, "<=": x <= y, ">=": x >= y}[c0["op"]]
+        v = val(c0)
+        return None if v is None else bool(v)
+
+    def component_call(s, name, rl, al):
+        if name != role:
+            viol.append("line %s: %s calls %s() on component '%s' (method parity broken)" % (s.get("l"), role, name, rl))
+        want_arg = "whole" if argrule == "whole" else rl
+        if al != want_arg:
+            viol.append("line %s: component '%s' filters %s of the vector, must filter %s" % (s.get("l"), rl, "the " + al + "() part" if al != "whole" else "the whole", "the " + want_arg + "() part" if want_arg != "whole" else "the whole vector"))
+        seen.append(rl)
+
+    def bind(callee, args, what):
+        """parameters of an inlined helper stand for the component / (sub-)vector they receive; False if an argument is not understood"""
+        ok = True
+        for prm, a in zip(callee.params, args):
+            rl = recv_label(a, by_decl, alias)
+            al = arg_label(a, pd, alias)
+            if rl is not None:
+                alias[prm["d"]] = ("recv", rl)
+            elif al is not None:
+                alias[prm["d"]] = ("arg", al)
+            elif const_cond(a) is None and a.get("k") not in ("Int", "Bool", "Str"):
+                inc.append("%s: argument `%s` of %s is neither a component nor a (sub-)vector" % (fn.full, render(a)[:50], what))
+                ok = False
+        return ok
+
+    def proc(sts, cur, depth):
+        for s in sts:
+            k = s.get("k")
+            if k == "Block":
+                proc(s.get("s", []), cur, depth)
                 continue
-            al = arg_label(s["a"][0], pd, alias) if len(s.get("a", [])) == 1 else None
-            if al is None:
-                inc.append("%s: component argument %s not understood" % (fn.full, render(s["a"][0]) if s.get("a") else "-"))
+            if k == "Decl":
+                # static_assert (no variables) / named aliases of a component or of a sub-vector
+                for v in s.get("vars", []):
+                    ini = v.get("init")
+                    ty = (cur.type(v["t"]) or "").strip()
+                    if ini is not None and ini.get("k") == "Un" and ini.get("op") == "&" and ty.rstrip("const ").endswith("*"):
+                        ini, is_alias = ini["e"], True
+                    else:
+                        is_alias = bool(v.get("ref"))
+                    rl = recv_label(ini, by_decl, alias) if ini is not None and is_alias else None
+                    al = arg_label(ini, pd, alias) if ini is not None and is_alias else None
+                    if rl is not None:
+                        alias[v["d"]] = ("recv", rl)
+                    elif al is not None:
+                        alias[v["d"]] = ("arg", al)
+                    else:
+                        inc.append("%s: statement `%s` is not a component call (nor a reference alias of a component / sub-vector)" % (fn.full, render(s)[:80]))
                 continue
-            if s["n"] != fn.name:
-                viol.append("line %s: %s calls %s() on component '%s' (method parity broken)" % (s.get("l"), fn.name, s["n"], rl))
-            want_arg = "whole" if argrule == "whole" else rl
-            if al != want_arg:
-                viol.append("line %s: component '%s' filters %s of the vector, must filter %s" % (s.get("l"), rl, "the " + al + "() part" if al != "whole" else "the whole", "the " + want_arg + "() part" if want_arg != "whole" else "the whole vector"))
-            seen.append(rl)
-        else:
+            if k == "Call" and s.get("callee") == "FEAT::assertion":
+                continue
+            if k == "If" and s.get("constexpr"):
+                cv = const_cond(s.get("c"))
+                if cv is None:
+                    inc.append("%s: `if constexpr(%s)` not evaluated" % (fn.full, render(s.get("c"))[:50]))
+                else:
+                    br = s.get("then") if cv else s.get("else")
+                    if br is not None:
+                        proc([br], cur, depth)
+                continue
+            if k == "MCall" and s.get("n", "").startswith("filter_"):
+                rl = recv_label(s.get("obj") or {}, by_decl, alias)
+                if rl is None:
+                    inc.append("%s: component receiver %s not understood" % (fn.full, render(s.get("obj") or {})))
+                    continue
+                al = arg_label(s["a"][0], pd, alias) if len(s.get("a", [])) == 1 else None
+                if al is None:
+                    inc.append("%s: component argument %s not understood" % (fn.full, render(s["a"][0]) if s.get("a") else "-"))
+                    continue
+                component_call(s, s["n"], rl, al)
+                continue
+            callee = by_decl.get(s.get("cdecl")) if k in ("MCall", "Call") else None
+            if callee is not None and callee.body is not None and depth < 4 and callee is not cur:
+                own = k == "MCall" and (s.get("obj") or {"k": "This"}).get("k") == "This" and s.get("ccls") == fn.cls
+                if own or k == "Call":
+                    # private helper of the class / free helper: its statements are executed in place, its parameters bound to what they receive
+                    if bind(callee, s.get("a", []), callee.name):
+                        proc(callee.body.get("s", []) if callee.body.get("k") == "Block" else [callee.body], callee, depth + 1)
+                    continue
+                rl = recv_label(s.get("obj") or {}, by_decl, alias) if k == "MCall" else None
+                if rl is not None and expected_components(callee) is not None and len(s.get("a", [])) == 1:
+                    # a helper of the COMPONENT's class called on the component (`_rest._filter_vec<op>(v)`): it counts as the component's
+                    # filter operation if, judged as that operation of its own class, it applies it to all of its components
+                    al = arg_label(s["a"][0], pd, alias)
+                    v2, i2, _ = map_problems(callee, by_decl, as_name=role)
+                    if al is None or i2:
+                        inc.append("%s: call `%s` on component '%s' not understood (%s)" % (fn.full, render(s)[:50], rl, (i2 or ["argument"])[0][:120]))
+                    elif v2:
+                        viol.append("line %s: component '%s' is filtered through %s, which is not its %s: %s" % (s.get("l"), rl, callee.name, role, v2[0][:160]))
+                        seen.append(rl)
+                    else:
+                        component_call(s, role, rl, al)
+                    continue
+            if k == "For":
+                # indexed form: for(i = 0; i < count; ++i) this->get(i).filter_X(vector.get(i));
+                r_ = indexed_loop(s, cur)
+                if r_ is not None:
+                    continue
             inc.append("%s: statement `%s` is not a component call" % (fn.full, render(s)[:80]))
+
+    def indexed_loop(s, cur):
+        init, c, inc_ = s.get("init") or {}, s.get("c") or {}, s.get("inc") or {}
+        var = (init.get("vars") or [None])[0] if init.get("k") == "Decl" and len(init.get("vars", [])) == 1 else None
+        if var is None or const_cond(var.get("init")) is None and (var.get("init") or {}).get("k") != "Int":
+            return None
+        lo = int((var.get("init") or {}).get("v", "x")) if (var.get("init") or {}).get("k") == "Int" else None
+
+        def cval(e):
+            while e is not None and e.get("k") == "Cast":
+                e = e.get("e")
+            if e is not None and (e.get("k") == "Int" or "v" in e):
+                try:
+                    return int(e["v"])
+                except (TypeError, ValueError):
+                    return None
+            if e is not None and e.get("k") == "Bin" and e.get("op") in ("+", "-", "*"):
+                x_, y_ = cval(e["lhs"]), cval(e["rhs"])
+                if x_ is not None and y_ is not None:
+                    return x_ + y_ if e["op"] == "+" else (x_ - y_ if e["op"] == "-" else x_ * y_)
+            return None
+        hi = cval(c.get("rhs")) if c.get("k") == "Bin" and c.get("op") in ("<", "!=") and (c.get("lhs") or {}).get("d") == var.get("d") else None
+        step = inc_.get("k") == "Un" and inc_.get("op") == "++" and (inc_.get("e") or {}).get("d") == var.get("d")
+        body = s.get("body") or {}
+        if body.get("k") == "Block" and len(body.get("s", [])) == 1:
+            body = body["s"][0]
+        if lo is None or hi is None or not step or body.get("k") != "MCall" or not body.get("n", "").startswith("filter_") or len(body.get("a", [])) != 1:
+            return None
+        o, a = body.get("obj") or {}, body["a"][0]
+
+        def is_get_i(x, on_this):
+            return x.get("k") == "MCall" and x.get("n") == "get" and len(x.get("a", [])) == 1 and (x["a"][0] or {}).get("d") == var.get("d") and \
+                (((x.get("obj") or {"k": "This"}).get("k") == "This" and x.get("ccls") == fn.cls) if on_this else arg_label(x.get("obj") or {}, pd, alias) == "whole")
+        if is_get_i(o, True) and not is_get_i(a, False) and a.get("k") == "MCall" and a.get("n") == "get" and arg_label(a.get("obj") or {}, pd, alias) == "whole":
+            viol.append("line %s: component get(%s) filters the sub-vector get(%s) instead of its own part get(%s)" % (body.get("l"), var.get("n"), render(a["a"][0]) if a.get("a") else "?", var.get("n")))
+            seen.extend(comps)
+            return True
+        if not (is_get_i(o, True) and is_get_i(a, False)):
+            return None
+        # get(i) of the composite is its i-th component: `return (i == 0) ? _first : _rest.get(i - 1);`
+        g = by_decl.get(o.get("cdecl"))
+        rets = [x for x in g.nodes() if x.get("k") == "Return"] if g is not None and g.body is not None else []
+        okget = False
+        if len(rets) == 1 and (rets[0].get("e") or {}).get("k") == "Cond":
+            ce = rets[0]["e"]
+            th, el = ce.get("then") or {}, ce.get("else") or {}
+            okget = th.get("k") == "Member" and MEMBER_LABEL.get(th.get("n")) == "first" and el.get("k") == "MCall" and el.get("n") == "get" \
+                and (el.get("obj") or {}).get("k") == "Member" and MEMBER_LABEL.get(el["obj"].get("n")) == "rest"
+        if not okget:
+            inc.append("%s: get(i) of %s is not recognised as the accessor of the i-th component" % (fn.full, short(fn.cls)))
+            return True
+        try:
+            n_comp = int(targs(fn.cls)[1])
+        except (ValueError, IndexError):
+            return None
+        if body["n"] != role:
+            viol.append("line %s: %s calls %s() on every component get(i) (method parity broken)" % (body.get("l"), role, body["n"]))
+        if lo != 0 or hi != n_comp:
+            viol.append("line %s: the loop applies the components [%d,%d) only; the filter has %d components" % (s.get("l"), lo, hi, n_comp))
+            seen.extend(comps[:1])
+        else:
+            seen.extend(comps)          # component i on sub-vector i, i = 0 .. count-1: every component once, on its own part
+        return True
+
+    proc(stmts, fn, 0)
     if inc:
         return viol, inc, len(seen)      # an unmodelled statement may filter the missing component: no 'missing' verdict
     for cpt in comps:
         if seen.count(cpt) == 0:
-            viol.append("component '%s' is never filtered by %s" % (cpt, fn.name))
+            viol.append("component '%s' is never filtered by %s" % (cpt, role))
         elif seen.count(cpt) > 1:
-            viol.append("component '%s' is filtered %d times by %s" % (cpt, seen.count(cpt), fn.name))
+            viol.append("component '%s' is filtered %d times by %s" % (cpt, seen.count(cpt), role))
     for cpt in set(seen) - set(comps):
         viol.append("unexpected component '%s'" % cpt)
     if ordered and not viol and seen != comps:
@@ -2825,6 +2973,10 @@ class CopyFlow:
 def members_read_by_filters(facts, cls, by_decl):
     """data members of `cls` read (transitively through own methods) by its filter_* methods"""
     work = [f for f in facts.functions if f.cls == cls and f.name and f.name.startswith("filter_") and f.body is not None]
+    if not work:
+        # no filter_* member of this class is instantiated in the TU (an outer composition reaches its components through a loop or a
+        # private helper instead of the component's filter_*): the state is what its other const members (get, first, helpers) read
+        work = [f for f in facts.functions if f.cls == cls and f.body is not None and f.d.get("const") and not copy_op_kind(f) and f.tk != "pattern"]
     seen, mem = set(), set()
     while work:
         f = work.pop()
